@@ -19,21 +19,21 @@ from rig.routing_table import Routes
 from .. import gen, proj
 
 
-def sink_records(net, vidx, placements, allocations, endpoints):
+def sink_records(net, vidx, placements, allocations, endpoints, core=Cores):
     out = []
     for s in net.sinks:
         x, y = placements[s]
         if s in endpoints:
             out.append([vidx[s], x, y, "endpoint", int(endpoints[s]), 0])
-        elif Cores in allocations.get(s, {}):
-            sl = allocations[s][Cores]
+        elif core in allocations.get(s, {}):
+            sl = allocations[s][core]
             out.append([vidx[s], x, y, "cores", sl.start, sl.stop])
         else:
             out.append([vidx[s], x, y, "none", 0, 0])
     return out
 
 
-def route_trace(machine, nets, placements, allocations, endpoints, radius, seed, vertices):
+def route_trace(machine, nets, placements, allocations, endpoints, radius, seed, vertices, core=Cores):
     vidx = {v: i for i, v in enumerate(vertices)}
     cons = [RouteEndpointConstraint(v, r) for v, r in endpoints.items()]
     tr = proj.machine_json(machine)
@@ -42,7 +42,10 @@ def route_trace(machine, nets, placements, allocations, endpoints, radius, seed,
     evs = []
     random.seed(seed)
     try:
-        routes = route({v: {} for v in vertices}, nets, machine, cons, placements, allocations, Cores, radius)
+        if core is Cores and seed % 2:
+            routes = route({v: {} for v in vertices}, nets, machine, cons, placements, allocations, radius=radius)
+        else:
+            routes = route({v: {} for v in vertices}, nets, machine, cons, placements, allocations, core, radius)
     except Exception as ex:
         evs.append(["raise", type(ex).__name__])
         tr["nets"] = [[list(placements[n.source]), [list(placements[s]) for s in n.sinks]] for n in nets]
@@ -50,7 +53,7 @@ def route_trace(machine, nets, placements, allocations, endpoints, radius, seed,
         for n in nets:
             nodes, edges, leaves = proj.flatten_tree(routes[n], vidx)
             evs.append(["tree", dict(src=list(placements[n.source]),
-                                     sinks=sink_records(n, vidx, placements, allocations, endpoints),
+                                     sinks=sink_records(n, vidx, placements, allocations, endpoints, core),
                                      nodes=nodes, edges=edges, leaves=leaves)])
         evs.append(["ok"])
     tr["ev"] = evs
@@ -150,6 +153,37 @@ def small_scope(chk, rng):
                 yield route_trace(m, [net], placements, allocations, {}, radius, n, vertices)
 
 
+def seam_problems(chk, rng):
+    """non-square tori with a dead chip (and no dead link listed) next to a wrap-around seam, and nets whose straight
+    path runs through that chip over the seam: the repair has to work with coordinates taken modulo the right side"""
+    n = 0
+    for (w, h) in chk.pick(((5, 6), (3, 7), (1, 6), (6, 1), (3, 4), (7, 3)), ((5, 6), (3, 7), (1, 6), (6, 1), (3, 4), (7, 3),
+                                                                              (2, 3), (4, 5), (6, 7), (4, 9), (9, 4), (2, 9))):
+        spots = [("y", x, h - 1) for x in range(w)] + [("x", w - 1, y) for y in range(h)]
+        for axis, dx, dy in (spots if not chk.quick else rng.sample(spots, min(len(spots), 5))):
+            if w * h < 3:
+                continue
+            m = Machine(w, h, dead_chips={(dx, dy)})
+            if axis == "y" and h >= 3:
+                src, sinks = (dx, h - 2), [(dx, 0), (dx, 1 % h)]
+            elif axis == "x" and w >= 3:
+                src, sinks = (w - 2, dy), [(0, dy), (1 % w, dy)]
+            else:
+                continue
+            sinks = [c for c in sinks if c != (dx, dy) and c != src] or [src]
+            for a, b in ((src, sinks), (sinks[0], [src])):
+                vertices = ["s"] + ["t%d" % i for i in range(len(b))]
+                placements = {"s": a}
+                allocations = {"s": {Cores: slice(0, 1)}}
+                for i, c in enumerate(b):
+                    placements["t%d" % i] = c
+                    allocations["t%d" % i] = {Cores: slice(1 + i, 2 + i)}
+                net = Net("s", ["t%d" % i for i in range(len(b))])
+                for radius in (0, 20):
+                    n += 1
+                    yield route_trace(m, [net], placements, allocations, {}, radius, 7000 + n, vertices)
+
+
 def run(chk):
     rng = random.Random(chk.seed)
     chk.design("NerRepairDesign", "NerRepairDesign_%s.cfg" % chk.tier,
@@ -164,6 +198,8 @@ def run(chk):
     traces = []
     for t in small_scope(chk, rng):
         traces.append(t)
+    for t in seam_problems(chk, rng):
+        traces.append(t)
     nsmall = len(traces)
     # ner_net alone, fault free: all sizes incl. 1xN / 2xN, torus and mesh
     for i in range(chk.pick(600, 15000)):
@@ -177,8 +213,16 @@ def run(chk):
     for i in range(chk.pick(900, 30000)):
         m = gen.random_machine(rng, maxw=chk.pick(8, 16), maxh=chk.pick(8, 16), p_dead_chip=rng.choice((0, 0.05, 0.15)))
         vertices, placements, allocations, endpoints, nets = random_problem(rng, m, rng.randint(1, 4))
+        core = Cores
+        if rng.random() < 0.25:
+            # the caller's own name for the core resource (allocations of the default name are then no cores)
+            core = "processor"
+            allocations = {v: {(core if r is Cores else r): sl for r, sl in a.items()} for v, a in allocations.items()}
+            if rng.random() < 0.3 and vertices:
+                allocations[vertices[0]] = dict(allocations[vertices[0]])
+                allocations[vertices[0]][Cores] = slice(0, 2)
         traces.append(route_trace(m, nets, placements, allocations, endpoints, rng.choice((0, 1, 2, 20)),
-                                  chk.seed * 100000 + i, vertices))
+                                  chk.seed * 100000 + i, vertices, core))
     ntree = 0
     for t in traces:
         raised = t["ev"][-1][0] == "raise"
